@@ -13,7 +13,7 @@ from harness.props.c13 import ATTR_EDITS, base_ports
 
 class C12(Prop):
     ID = 'C12'
-    N_QUICK = 260
+    N_QUICK = 200
     N_THOROUGH = 1200
     CASE_TIMEOUT = 120
     RULE = ('scripted histories of one master/slave pair in virtual time: 1-4 ports (number/boolean, read-only, '
